@@ -4,7 +4,7 @@
  "standin": "B-drivers",
  "bound": "6 (quick) / 8 (thorough) small projects without externals x 3 (quick) / 16 (thorough) category subsets: Example.run_inline vs Example.run_pytest vs raw pytest subprocess (changed files as text) and run_inline's reported categories vs the headers of a `--inline-snapshot=<F>,report` session",
  "input": {
-  "project": "interleaved categories",
+  "project": "insertions in front of kept entries, whitespace-only edits",
   "flags": [
    "create",
    "fix",
@@ -13,7 +13,7 @@
   ],
   "driver": "inline"
  },
- "detail": "C19: changed files of Example.run_inline differ from the raw pytest session: test_something.py: content differs\n--- run_inline test_something.py:\nfrom inline_snapshot import snapshot\n\n\ndef test_alt_list():\n    assert [0, 2, 29] == snapshot([0, 2, 29])\n\n\ndef test_alt_dict():\n    s = snapshot({\"b\": 29})\n    assert s[\"b\"] == 29\n\n--- raw pytest test_something.py:\nfrom inline_snapshot import snapshot\n\n\ndef test_alt_list():\n    assert [0, 2, 29] == snapshot([1, 2, 29])\n\n\ndef test_alt_dict():\n    s = snapshot({\"a\": 1, \"b\": 29})\n    assert s[\"b\"] == 29\n"
+ "detail": "C19: changed files of Example.run_inline differ from the raw pytest session: test_something.py: content differs\n--- run_inline test_something.py:\nfrom inline_snapshot import snapshot\n\n\ndef test_dict_front():\n    assert {\"a\": 1, \"b\": 2, \"c\": 29} == snapshot({\"a\": 1, \"b\": 2, \"c\": 29})\n\n\ndef test_list_front():\n    assert [29, 0, 1, 2] == snapshot([29, 0, 1, 2])\n\n\ndef test_call_front():\n    assert dict(a=1, b=29) == snapshot({\"a\": 1, \"b\": 29})\n\n\ndef test_trailing_blanks():\n    assert \"first\\nsecond\\n\" == snapshot(\"\"\"\\\nfirst\nsecond\n\"\"\")\n\n\ndef test_blank_inside_brackets():\n    assert [1, 29] == snapshot([1, 29 ])\n\n--- raw pytest test_something.py:\nfrom inline_snapshot import snapshot\n\n\ndef test_dict_front():\n    assert {\"a\": 1, \"b\": 2, \"c\": 29} == snapshot({\"b\": 2, \"c\": 29})\n\n\ndef test_list_front():\n    assert [29, 0, 1, 2] == snapshot([29, 0, 1, 2])\n\n\ndef test_call_front():\n    assert dict(a=1, b=29) == snapshot({\"a\": 1, \"b\": 29})\n\n\ndef test_trailing_blanks():\n    assert \"first\\nsecond\\n\" == snapshot(\"\"\"\\\nfirst\nsecond\n\"\"\")\n\n\ndef test_blank_inside_brackets():\n    assert [1, 29] == snapshot([1, 29 ])\n"
 }
 """
 
@@ -86,7 +86,7 @@ ROOT = tempfile.mkdtemp()
 PROJ = os.path.join(ROOT, "proj")
 os.mkdir(PROJ)
 try:
-    FILES = {'test_something.py': 'from inline_snapshot import snapshot\n\n\ndef test_alt_list():\n    assert [0, 2, 29] == snapshot([1, 1 + 1, 3])\n\n\ndef test_alt_dict():\n    s = snapshot({"a": 1, "b": 0, "c": 3})\n    assert s["b"] == 29\n', 'pyproject.toml': '[tool.inline-snapshot]\n'}
+    FILES = {'test_something.py': 'from inline_snapshot import snapshot\n\n\ndef test_dict_front():\n    assert {"a": 1, "b": 2, "c": 29} == snapshot({"b": 2})\n\n\ndef test_list_front():\n    assert [29, 0, 1, 2] == snapshot([1, 2])\n\n\ndef test_call_front():\n    assert dict(a=1, b=29) == snapshot(dict(b=29))\n\n\ndef test_trailing_blanks():\n    assert "first\\nsecond\\n" == snapshot("""\\\nfirst  \nsecond\n""")\n\n\ndef test_blank_inside_brackets():\n    assert [1, 29] == snapshot([1, 29 ])\n', 'pyproject.toml': '[tool.inline-snapshot]\n'}
     FLAGS = ['--inline-snapshot=create,fix,trim,update']
     write(PROJ, FILES)
     r = session(PROJ, FLAGS)
